@@ -32,6 +32,7 @@ type c02Case struct {
 	Fin       bool   `json:"fin_after_open,omitempty"` // the remote half-closes right behind its OPEN
 	Body      string `json:"body_hex"`
 	OpenNotif string `json:"open_notif_hex,omitempty"` // code,sub,data returned by OnOpenMessage
+	DelayMs   int    `json:"delay_ms,omitempty"`       // the remote sends its OPEN that long after it could
 }
 
 type c02Cfg struct{ las, ras, lid uint32 }
@@ -354,6 +355,11 @@ func c02Run(cs c02Case, trace bool) (rule, sig, msg string, class refmodel.Class
 					return
 				}
 			}
+			if cs.DelayMs > 0 {
+				// a peer that takes its time: the acceptability of an OPEN does not depend on when it arrives
+				// (within the large OpenSent hold time), whatever hold time is configured locally
+				vrt.Sleep(time.Duration(cs.DelayMs) * time.Millisecond)
+			}
 			r.Send(wire.Frame(wire.TypeOpen, body))
 			if cs.Fin {
 				r.C.CloseWrite()
@@ -625,6 +631,9 @@ func c02Check(c *harness.Ctx) {
 				}
 				if bi%7 == 3 {
 					cs.Fin = true // the OPEN arrived before the FIN and must be judged all the same
+				}
+				if bi%4 == 2 {
+					cs.DelayMs = 1500
 				}
 				rule, sig, msg, class, rep := c02Run(cs, false)
 				switch class {
